@@ -151,6 +151,10 @@ class Compiler:
                  'core::f64::<impl f64>::MAX': 1.7976931348623157e308, 'core::f64::<impl f64>::MIN': -1.7976931348623157e308,
                  'core::f64::<impl f64>::EPSILON': 2.220446049250313e-16}
         if t in named: return ('v', named[t])
+        m = re.match(r'^(?:core::num::<impl )?(u8|u16|u32|u64|usize|i8|i16|i32|i64|isize)>?::(MIN|MAX)$', t)
+        if m:
+            bits, sg = INT_TY[m.group(1)]
+            return ('v', ((1 << (bits - 1)) - 1 if sg else (1 << bits) - 1) if m.group(2) == 'MAX' else (-(1 << (bits - 1)) if sg else 0))
         m = re.match(r'^\{alloc\d+: &(.*)\}$', t)
         if m: return ('static_ref', strip_lifetimes(m.group(1)))
         m = re.match(r'^(.*)::promoted\[(\d+)\]$', t)
